@@ -67,6 +67,11 @@ def _norm(cond):
         return None if n is None else (n[0], NEG[n[1]], n[2])
     if c.get('k') == 'bin' and c.get('op') in SWAP:
         l, r = strip(c['l']), strip(c['r'])
+        # `A op K - B` is the sum test `A + B op K` written so that it cannot overflow
+        if isinstance(r, dict) and r.get('k') == 'bin' and r.get('op') == '-' and const_int(r['l']) is not None and const_int(r) is None and _name(l) and _name(r['r']):
+            return ('+', c['op'], const_int(r['l']))
+        if isinstance(l, dict) and l.get('k') == 'bin' and l.get('op') == '-' and const_int(l['l']) is not None and const_int(l) is None and _name(r) and _name(l['r']):
+            return ('+', SWAP[c['op']], const_int(l['l']))
         K = const_int(r)
         if K is not None and _name(l):
             return (_name(l), c['op'], K)
